@@ -117,6 +117,7 @@ fn sl_q_mutex_scoped_try_lock() {
 	let body = |d: &mut u8| {
 		calls.set(calls.get() + 1);
 		assert!(s.mine.get() == EXCL, "C02_closure_runs_only_while_held_exclusively");
+		assert!(key_flag(), "C06_no_key_obtainable_inside_scoped_call");
 		assert!(*d == v, "C02_closure_sees_stored_value");
 		17u8
 	};
@@ -280,6 +281,7 @@ fn sl_q_rwlock_scoped_write_read() {
 	let rbody = |d: &u8| {
 		calls.set(calls.get() + 1);
 		assert!(s.mine.get() == 1 && s.other.get() != EXCL, "C02_shared_closure_overlaps_only_shared_holders");
+		assert!(key_flag(), "C06_no_key_obtainable_inside_scoped_call");
 		assert!(*d == nv, "C02_next_section_sees_last_write");
 	};
 	let mut key = ThreadKey::get().unwrap();
@@ -318,6 +320,7 @@ fn sl_q_rwlock_scoped_try() {
 		match m.scoped_try_write(key, |d: &mut u8| {
 			calls.set(calls.get() + 1);
 			assert!(s.mine.get() == EXCL, "C02_closure_runs_only_while_held_exclusively");
+			assert!(key_flag(), "C06_no_key_obtainable_inside_scoped_call");
 			assert!(*d == v, "C02_closure_sees_stored_value");
 		}) {
 			Ok(()) => true,
@@ -331,6 +334,7 @@ fn sl_q_rwlock_scoped_try() {
 		match m.scoped_try_read(key, |d: &u8| {
 			calls.set(calls.get() + 1);
 			assert!(s.mine.get() == 1, "C02_closure_runs_only_while_held_shared");
+			assert!(key_flag(), "C06_no_key_obtainable_inside_scoped_call");
 			assert!(*d == v, "C02_closure_sees_stored_value");
 		}) {
 			Ok(()) => true,
